@@ -145,4 +145,57 @@ def fineMean (lv : Lvl) : Rat := meanOf rowFine lv.rows
 def fixedRun (p : Proc) (maxLevel mc : Nat) : St :=
   afterPasses p { L := maxLevel, lv := fun _ => ⟨List.replicate mc none, 0, mc, 0, 0⟩, levelMax := maxLevel, newInit := 0 }
 
+/-! ### what the loop hands to the criteria at every iteration (engine.py:237-258, 281-290)
+
+Right after the passes `set_mlmc_results(Nl, sum_cost)` is called and `ml, vl, cl` are read from it; levels ≥ 3 go through the
+"work-around for possible zero values" (in place, in increasing level order, so each level sees the already corrected
+previous one); `compute_mc_paths(rmse, vl, cl)` and — when every level is within the 1 % rule — `criteria(alpha, ml, rmse)`
+receive these vectors; if a level is added, `compute_mc_paths` is called again with `vl`, `cl` extended by the extrapolated
+entries `vl[-1]/2^beta`, `cl[-1]·2^gamma`.  `qa, qb, qg` stand for `2^alpha, 2^beta, 2^gamma`. -/
+
+def rabs (x : Rat) : Rat := if x < 0 then -x else x
+
+/-- `ml` = |first non-centred moment of the correction terms| -/
+def mlOf (lv : Lvl) : Rat := rabs (dpMean lv)
+
+/-- `x[l] = max(x[l], 0.5·x[l-1]/q)` for the entries after `prev`, each using the corrected predecessor -/
+def fixGo (q : Rat) : Rat → List Rat → List Rat
+  | _, [] => []
+  | prev, x :: t => let x' := max x (prev / (2 * q)); x' :: fixGo q x' t
+
+/-- the work-around loop `for level in range(3, L + 1)` -/
+def fix3 (q : Rat) : List Rat → List Rat
+  | a :: b :: c :: t => a :: b :: c :: fixGo q c t
+  | xs => xs
+
+/-- results of all levels `0 … L` as `set_mlmc_results` computes them from the arrays `rowsOf l` -/
+def levelsOf (L : Nat) (lv : Nat → Lvl) : List Lvl := (List.range (L + 1)).map lv
+
+def mlFed (qa : Rat) (L : Nat) (lv : Nat → Lvl) : List Rat := fix3 qa ((levelsOf L lv).map mlOf)
+def vlFed (qb : Rat) (L : Nat) (lv : Nat → Lvl) : List Rat := fix3 qb ((levelsOf L lv).map vlOf)
+def clFed (L : Nat) (lv : Nat → Lvl) : List Rat := (levelsOf L lv).map clOf
+
+/-- `np.append(x, x[-1] · r)` -/
+def extrapolate (r : Rat) (xs : List Rat) : List Rat := xs ++ [xs.getLastD 0 * r]
+
+/-- second call of `compute_mc_paths` of an iteration that appends a level -/
+def vlFed2 (qb : Rat) (L : Nat) (lv : Nat → Lvl) : List Rat := extrapolate (1 / qb) (vlFed qb L lv)
+def clFed2 (qg : Rat) (L : Nat) (lv : Nat → Lvl) : List Rat := extrapolate qg (clFed L lv)
+
+/-- the states at the read points of a run, one per executed iteration: `afterPasses` of each loop-head state -/
+def reads (p : Proc) : List Oracle → St → List St
+  | [], _ => []
+  | o :: os, s =>
+    afterPasses p s :: (match iter p o s with
+      | .cont s' => reads p os s'
+      | .ret _ => [])
+
+/-- the loop-head states of a run (the first one included) -/
+def heads (p : Proc) : List Oracle → St → List St
+  | [], s => [s]
+  | o :: os, s =>
+    s :: (match iter p o s with
+      | .cont s' => heads p os s'
+      | .ret _ => [])
+
 end Rpylib.Mlmc
